@@ -205,8 +205,10 @@ def prefixOnlyER (origStart : Nat) (n : Num) (pu : Nat × Str) : ER × Num :=
   let n2 : Num := { n with start := origStart - s }
   (⟨s, n.len + pu.1, pu.2 ++ n.text, some n2⟩, n2)
 
-/-- one iteration of `for number in numbers` -/
-def step (c : Cfg) (src : Str) (pm sm : List MR) (nonUnit : List (Nat × Nat)) (st : St) (n : Num) : St :=
+/-- one iteration of `for number in numbers` with the flag `prefix_matched` carried over from the previous numbers — the
+code BEFORE fix f41005087 (kept for the regression theorem `nwu_prefix_only_suppressed_witness`); the body after the
+reset is the same in both variants -/
+def stepSticky (c : Cfg) (src : Str) (pm sm : List MR) (nonUnit : List (Nat × Nat)) (st : St) (n : Num) : St :=
   let mapping := prefixSearch c src pm st.mapping n
   let pu := mget mapping n.start
   let maxLen := maxSuffix c src (n.start + n.len) sm
@@ -240,8 +242,17 @@ def step (c : Cfg) (src : Str) (pm sm : List MR) (nonUnit : List (Nat × Nat)) (
       else { st with mapping := mapping, nums := st.nums ++ [n] }
     | none => { st with mapping := mapping, nums := st.nums ++ [n] }
 
+/-- one iteration of `for number in numbers`: `prefix_matched = False` first (whether THIS number's prefix unit was
+already attached to a prefix+suffix result), then the body -/
+def step (c : Cfg) (src : Str) (pm sm : List MR) (nonUnit : List (Nat × Nat)) (st : St) (n : Num) : St :=
+  stepSticky c src pm sm nonUnit { st with prefixMatched := false } n
+
 def coreLoop (c : Cfg) (src : Str) (pm sm : List MR) (nonUnit : List (Nat × Nat)) (nums : List Num) : St :=
   nums.foldl (step c src pm sm nonUnit) St.init
+
+/-- the number loop before fix f41005087 -/
+def coreLoopSticky (c : Cfg) (src : Str) (pm sm : List MR) (nonUnit : List (Nat × Nat)) (nums : List Num) : St :=
+  nums.foldl (stepSticky c src pm sm nonUnit) St.init
 
 /-! ### separate units (`_extract_separate_units`) -/
 
